@@ -286,11 +286,20 @@ class Arr(object):
     def shape(self):
         return (len(self.rows), len(self.rows[0]) if self.rows else 0)
 
+    integer = False
+
     def __setitem__(self, i, v):
+        if self.integer:
+            v = _trunc(v)
         if isinstance(i, tuple):
             self.rows[i[0]][i[1]] = v
         else:
             self.rows[i] = [v] * len(self.rows[i])
+
+    def __matmul__(self, other):
+        if isinstance(other, Vec):
+            return other.__rmatmul__(self)
+        return arr_dot(self, other)
 
     def __getitem__(self, i):
         if isinstance(i, tuple):
@@ -335,10 +344,84 @@ def _as_arr(a):
     return Arr(a)
 
 
-def arr_zeros(shape, *a, **k):
+def _trunc(x):
+    """what storing x into an integer numpy array keeps: truncation toward zero"""
+    with NoTracing():
+        if not is_sym(x):
+            return int(x)
+        z = zv(x)
+        return _sym(z3.If(z >= 0, z3.ToReal(z3.ToInt(z)), -z3.ToReal(z3.ToInt(-z))))
+
+
+class Vec(object):
+    """1-D array over (possibly symbolic) reals: item assignment (truncating when the array was created with an integer
+    dtype), `@` with vectors and matrices, iteration."""
+
+    def __init__(self, vals, integer=False):
+        self.v, self.integer = list(vals), integer
+
+    @property
+    def shape(self):
+        return (len(self.v),)
+
+    def __len__(self):
+        return len(self.v)
+
+    def __iter__(self):
+        return iter(self.v)
+
+    def __getitem__(self, i):
+        return self.v[i]
+
+    def __setitem__(self, i, x):
+        self.v[i] = _trunc(x) if self.integer else x
+
+    @staticmethod
+    def _mul_acc(pairs):
+        acc = 0
+        for x, y in pairs:
+            if (not is_sym(x) and x == 0) or (not is_sym(y) and y == 0):
+                continue
+            acc = acc + x * y
+        return acc
+
+    def __matmul__(self, other):
+        if isinstance(other, Vec):
+            if len(other) != len(self):
+                raise ValueError('shapes not aligned')
+            return self._mul_acc(zip(self.v, other.v))
+        m = _as_arr(other)
+        r, c = m.shape
+        if r != len(self):
+            raise ValueError('shapes not aligned')
+        return Vec([self._mul_acc((self.v[k], m.rows[k][j]) for k in range(r)) for j in range(c)])
+
+    def __rmatmul__(self, other):
+        m = _as_arr(other)
+        r, c = m.shape
+        if c != len(self):
+            raise ValueError('shapes not aligned')
+        return Vec([self._mul_acc((m.rows[i][k], self.v[k]) for k in range(c)) for i in range(r)])
+
+    def dot(self, other):
+        return self.__matmul__(other)
+
+    def tolist(self):
+        return list(self.v)
+
+    def __float__(self):
+        raise TypeError('only 0-dimensional arrays can be converted to Python scalars')
+
+
+def arr_zeros(shape, dtype=None, *a, **k):
+    integer = dtype is int or (dtype is not None and 'int' in str(dtype))
     if isinstance(shape, int):
-        shape = (1, shape)
-    return Arr([[0.0] * shape[1] for _ in range(shape[0])])
+        return Vec([0 if integer else 0.0] * shape, integer=integer)
+    if len(shape) == 1:
+        return Vec([0 if integer else 0.0] * shape[0], integer=integer)
+    a2 = Arr([[0.0] * shape[1] for _ in range(shape[0])])
+    a2.integer = integer
+    return a2
 
 
 def arr_dot(a, b):
